@@ -26,6 +26,7 @@ RULE = ("cases = (frame with 2 geometry columns (active one not first), provenan
 ASSUMPTIONS = ["pandas operations are decided by C01-C05, C13, C14; here only Dask == pandas",
                "synchronous scheduler (schedules are C18's business)"]
 USE_CONTRACTS = True      # in-situ icontract monitors (vmon/contracts.py)
+SPLIT_KINDS = True         # thorough tier: one shard per geometry kind
 DECIDING_COUNTERS = ["ops_checked"]
 
 PROVS = ["from_pandas", "filter", "cached-filter", "set_geometry", "pack_partitions", "parquet",
